@@ -80,6 +80,7 @@ def verify_function(tu, fn_name, contracts, int_mode='bv', num_mode='real', pref
     exe = Exe(tu, int_mode, num_mode, contracts, prefix)
     exe.check_arith = check_arith
     exe.sem.strict = bool(con.get('strict_unsigned'))
+    exe.keep_byte_offsets = bool(con.get('keep_byte_offsets'))
     if con.get('prune_ms') is not None:
         exe.prune_ms = con['prune_ms']      # solver-based pruning of infeasible branches during VC generation
     exe.drop_dead_ptr_locals = bool(con.get('drop_dead_ptr_locals'))
@@ -118,6 +119,17 @@ def verify_function(tu, fn_name, contracts, int_mode='bv', num_mode='real', pref
         else:
             raise FrontEndError('ghost parameter sort ' + str(gsort))
     exe.__dict__.setdefault('ghosts', {})[fn_name] = gh
+    # ghost definitions: named abbreviations (fresh constants with a defining equation, evaluated in order in the entry
+    # state) - a definitional extension, so assuming the equations is sound; they keep long specification sums out of the VCs
+    if con.get('ghost_defs'):
+        exe.fn_stack.append(fn_name)
+        exe.pre_states = {fn_name: st}
+        for gname, gexpr in con['ghost_defs']:
+            term = eval_clauses(exe, {gname: gexpr}, st, fn_name, raw=True, pre=st)[0][1]
+            c = z3.Const(gname, exe.sem.idx_sort())
+            st.assume(c == term)
+            gh[gname] = c
+        exe.fn_stack.pop()
     if setup:
         setup(exe, st, res)
     exe.pre_states = {fn_name: st}
